@@ -53,9 +53,9 @@ type msCfg struct {
 	reopenOp   bool // offer "close and reopen the store on the same DB" as an operation (once)
 	// direct: block writes go straight to the root multistore's live stores (as this application's deliver
 	// state does) instead of through a cache multistore that is written at commit
-	direct bool
-	final      func(s *msSys) (string, string)
-	onCommit   func(s *msSys, id storetypes.CommitID) (string, string)
+	direct   bool
+	final    func(s *msSys) (string, string)
+	onCommit func(s *msSys, id storetypes.CommitID) (string, string)
 }
 
 type msOp struct {
